@@ -47,6 +47,8 @@ def _elements_loop_then(facts, rep, wrapper, elem_fn, then_fn, rule, what):
     paths = SymEx(b, havoc_loops=True, max_paths=20000).run()
     loop_call = False
     then_ok = None
+    foreach_sites = set()
+    inverted = False
     for p in paths:
         evs = p.events
         for i, e in enumerate(evs):
@@ -56,21 +58,36 @@ def _elements_loop_then(facts, rep, wrapper, elem_fn, then_fn, rule, what):
                 recv = sk(e.args[0])
                 if 'next(' in recv and 'Some.0' in recv:
                     loop_call = True
+            if e.name.split('::')[-1] == 'for_each' and len(e.args) == 2 and 'elements' in sk(e.pre[0] if e.pre and e.args[0][0] == 'mref' else e.args[0]):
+                # self.elements.iter_mut().for_each(|e| e.f(..)): the closure body is the loop body
+                from symex import apply_closure
+                for q in apply_closure(e.args[1], [('item',)]) or []:
+                    if any(c.name == elem_fn and "('item',)" in sk(c.args[0]) for c in q.calls()):
+                        loop_call = True
+                        foreach_sites.add(e.site)
             if then_fn is not None and e.name == then_fn:
                 # before it: the elements iterator was created and ran dry (None branch), or a callee did the loop
                 before = evs[:i]
                 it = any(x.kind == 'call' and ('iter_mut' in x.name or 'into_iter' in x.name) and 'elements' in ' '.join(sk(a) for a in x.args) for x in before)
                 dry = any(x.kind == 'branch' and sk(x.term).startswith('discr(next(') and x.value == 0 for x in before)
-                ok = it and dry
+                ok = (it and dry) or any(x.kind == 'call' and x.site in foreach_sites for x in before)
+                after = evs[i + 1:]
+                if not ok and any(x.kind == 'call' and (x.name == elem_fn or x.site in foreach_sites) for x in after):
+                    inverted = True
                 then_ok = ok if then_ok is None else (then_ok and ok)
+    reaches = elem_fn in facts.reach(wrapper)
     if then_fn is None:
         if loop_call:
             rep.ok(rule, inst, 'for e in elements { e.%s(..) }' % elem_fn.split('::')[-1])
-        else:
+        elif not reaches:
             rep.violation(rule, inst, '%s no longer applies %s to every element' % (wrapper, elem_fn), where=b.where())
+        else:
+            rep.indet('%s: the loop of %s over `elements` was not recognised' % (rule, wrapper))
         return
     if loop_call and then_ok:
         rep.ok(rule, inst, 'all elements transported, then %s' % then_fn.split('::')[-1])
+    elif reaches and not inverted:
+        rep.indet('%s: %s outside the recognised fragment (loop call: %s, order: %s)' % (rule, wrapper, loop_call, then_ok))
     else:
         rep.violation(rule, inst,
                       '%s: %s is not preceded on every path by the exhausted loop over `elements` calling %s (loop call: %s, order: %s): '
@@ -85,8 +102,20 @@ def check_cycle_transport(facts, rep):
             rep.indet('E12: %s not found' % target)
             continue
         callers = _callers(facts, target)
+        # a private step of the owner (called from nowhere else) is the owner
+        steps = {owner}
+        ch = True
+        while ch:
+            ch = False
+            for c_ in list(callers):
+                cb_ = facts.bodies.get(c_)
+                if c_ not in steps and cb_ is not None and cb_.kind != 'Closure' and cb_.d.get('vis', 'pub') != 'pub':
+                    cc_ = _callers(facts, c_)
+                    if cc_ and cc_ <= steps:
+                        steps.add(c_)
+                        ch = True
         inst = '%s|called only from %s' % (target.split('::', 4)[-1], owner.split('::')[-2] + '::' + owner.split('::')[-1])
-        if callers == {owner}:
+        if callers and callers <= steps:
             rep.ok('E12.P1-who-may-call', inst, 'single caller')
         else:
             rep.violation('E12.P1-who-may-call', inst,
@@ -110,8 +139,16 @@ def check_cycle_transport(facts, rep):
                     a1, a2 = names[0][1].args, names[1][1].args
                     good = [strip(x) for x in a1[1:]] == [strip(x) for x in a2[1:]] == [('arg', 2), ('arg', 3)]
                 ok = good if ok is None else (ok and good)
+        wrong_order = False
+        for p in SymEx(b, max_paths=20000).run():
+            seq = [e.name for e in p.calls() if e.name in (BUILDER + 'eliminate_elements', COMPLEX + 'eliminate')]
+            if seq[:1] == [COMPLEX + 'eliminate']:
+                wrong_order = True
         if ok:
             rep.ok('E12.P1-cycles-before-rewrite', inst, 'eliminate_elements(i, j); complex.eliminate(i, j)')
+        elif ok is None or (not wrong_order and (BUILDER + 'eliminate_elements') in facts.reach(BUILDER + 'eliminate') and
+                            not any([n for n in [e.name for e in p.calls()] if n == BUILDER + 'eliminate_elements'] for p in SymEx(b, max_paths=20000).run())):
+            rep.indet('E12.P1: %s outside the recognised fragment' % (BUILDER + 'eliminate'))
         else:
             rep.violation('E12.P1-cycles-before-rewrite', inst,
                           '%s does not call eliminate_elements(i, j) before complex.eliminate(i, j) with the same keys on every path' % (BUILDER + 'eliminate'),
@@ -127,9 +164,56 @@ def check_adjacency(facts, rep):
     mod = 'yui_kh::kh::internal::v2::tng_complex::'
     bodies = [b for b in facts.bodies.values() if b.defp.startswith(mod)]
     n = 0
-    for b in sorted(bodies, key=lambda x: x.defp):
+    rcg = facts.rev_callgraph()
+    own = {}
+
+    def kinds_of(b):
+        if b.defp in own:
+            return own[b.defp]
         kinds = {'out_edges': [], 'in_edges': []}
         for c in b.calls():
+            m = (c.generic or '').split('::')[-1]
+            if m not in MUT_KINDS or not c.args:
+                continue
+            p = op_place(c.args[0])
+            if p is None or not b.local_ty(p['l']).startswith('&mut '):
+                continue
+            r = resolve_place(b, p, 0, True)
+            for fld in kinds:
+                if re.search(r'\.%s$' % fld, r):
+                    kinds[fld].append((MUT_KINDS[m], c))
+        for bb, j, s in b.assigns():
+            f = [e.get('n') for e in s['lhs']['p'] if isinstance(e, dict)]
+            for fld in kinds:
+                if f and f[-1] == fld and b.name not in ('init', 'new'):
+                    kinds[fld].append(('assign', None))
+        own[b.defp] = kinds
+        return kinds
+    # a private helper that touches one of the two copies and is only called from inside the module is a step of its
+    # callers: its mutations are counted there (the pairing obligation is the caller's)
+    by_def = {b.defp: b for b in bodies}
+    steps = set()
+    for b in bodies:
+        k_ = kinds_of(b)
+        if b.kind != 'Closure' and b.d.get('vis', 'pub') != 'pub' and (k_['out_edges'] or k_['in_edges']) and \
+                sorted(x for x, _ in k_['out_edges']) != sorted(x for x, _ in k_['in_edges']):
+            callers = rcg.get(b.defp, ())
+            if callers and all((facts.bodies[c].d.get('root') or c) in by_def or c in by_def for c in callers if c in facts.bodies):
+                steps.add(b.defp)
+    for b in sorted(bodies, key=lambda x: x.defp):
+        if b.defp in steps:
+            rep.ok('E13.symmetric-adjacency', '%s|private step' % b.defp, 'mutates one copy; counted in its callers %s' % sorted(x.split('::')[-1] for x in rcg.get(b.defp, ()))[:3])
+            continue
+        kinds = {'out_edges': list(kinds_of(b)['out_edges']), 'in_edges': list(kinds_of(b)['in_edges'])}
+        has_step_call = False
+        step_names = []
+        for c in b.calls():
+            if (c.callee or '') in steps:
+                has_step_call = True
+                step_names.append(c.callee.split('::')[-1])
+                for fld in kinds:
+                    kinds[fld] += own[c.callee][fld]
+        for c in []:
             m = (c.generic or '').split('::')[-1]
             if m not in MUT_KINDS or not c.args:
                 continue
@@ -151,12 +235,12 @@ def check_adjacency(facts, rep):
         rep.saw(b)
         ko = sorted(k for k, _ in kinds['out_edges'])
         ki = sorted(k for k, _ in kinds['in_edges'])
-        inst = '%s|out_edges and in_edges mutated alike' % b.defp
+        inst = '%s|out_edges and in_edges mutated alike%s' % (b.defp, (' (with its private steps %s)' % sorted(set(step_names))) if step_names else '')
         if ko == ki:
             # loop-free bodies: also per path
             ok = True
-            if not any(True for _ in _loops(b)):
-                for p in SymEx(b).run():
+            if not has_step_call and not any(True for _ in _loops(b)):
+                for p in SymEx(b, inline=False).run():
                     if p.end != 'return':
                         continue
                     co = ci = 0
@@ -288,7 +372,34 @@ def check_canon_cycles(facts, rep):
     if rr == {('Color::B{}', (('discr(arg1)', 0),)), ('Color::A{}', (('discr(arg1)', 1),))}:
         rep.ok('E12.P3-canon-cycles', inst, 'A <-> B')
     else:
-        rep.violation('E12.P3-canon-cycles', inst, 'Color::other is %s' % sorted(rr), where=oth.where())
+        # by value: fold other() at A and at B
+        from dtree import DTree, Stuck
+        dt_ = DTree(facts)
+        got_ = {}
+        try:
+            for nm_, d_ in (('A', 0), ('B', 1)):
+                def atom(t, ev, nm_=nm_, d_=d_):
+                    if t[0] == 'discr' and strip(t[1]) == ('arg', 1):
+                        return (d_,)
+                    if t[0] == 'call' and t[1].split('::')[-1] in ('eq', 'ne', 'is_a', 'is_b') and strip(t[2][0]) == ('arg', 1):
+                        n_ = t[1].split('::')[-1]
+                        if n_ == 'is_a':
+                            return (int(nm_ == 'A'),)
+                        if n_ == 'is_b':
+                            return (int(nm_ == 'B'),)
+                        o_ = strip(t[2][1])
+                        if o_[0] == 'adt' and o_[2] in ('A', 'B'):
+                            return (int((o_[2] == nm_) == (n_ == 'eq')),)
+                    return None
+                v_, _ = dt_.decide(oth.defp, {1: 'SELF'}, atom)
+                got_[nm_] = v_.get('<variant>') if isinstance(v_, dict) else v_
+        except (Stuck, KeyError, TypeError) as ex:
+            rep.indet('E12.P3: Color::other outside the recognised fragment: %s' % str(ex)[:100])
+            got_ = None
+        if got_ == {'A': 'B', 'B': 'A'}:
+            rep.ok('E12.P3-canon-cycles', inst, 'A <-> B (by value)')
+        elif got_ is not None:
+            rep.violation('E12.P3-canon-cycles', inst, 'Color::other maps %s' % got_, where=oth.where())
     start = None
     step = set()
     base_cl = None
